@@ -143,15 +143,74 @@ def _deps_hash(src, args):
                        stderr=subprocess.PIPE)
     if r.returncode != 0:
         raise AnalysisBroken("preprocessing %s failed:\n%s" % (src, r.stderr.decode()[-2000:]))
-    return _sha(r.stdout, " ".join(args), " ".join(IR_FLAGS))
+    unit = os.path.relpath(src, REPO) if src.startswith(REPO) else ""
+    try:
+        ki = ",".join(sorted(known_internal().get(unit, ())))
+    except OSError:
+        ki = ""
+    return _sha(r.stdout, " ".join(args), " ".join(IR_FLAGS), "inline-v1:" + ki)
 
 
-def compile_unit(src, args, tag):
+_known_internal = None
+
+
+def known_internal():
+    global _known_internal
+    if _known_internal is None:
+        p = os.path.join(os.path.dirname(os.path.dirname(os.path.abspath(__file__))), "tools", "known_internal.json")
+        with open(p) as fh:
+            _known_internal = {k: set(v) for k, v in json.load(fh).items()}
+    return _known_internal
+
+
+def _inline_new_helpers(path, unit):
+    """Internal functions that the reference tree does not have (code moved into a new static helper) are inlined into
+    their callers, so that per-function rules see the code where it used to be.  Nothing changes on the reference tree."""
+    import re
+    if unit is None:
+        return
+    known = known_internal().get(unit, set())
+    with open(path) as fh:
+        text = fh.read()
+    new = [m.group(1) for m in re.finditer(r"^define internal [^\n]*?@\"?([\w.$]+)\"?\(", text, re.M) if m.group(1) not in known]
+    if not new:
+        return
+    groups = dict((int(m.group(1)), m.group(2)) for m in re.finditer(r"^attributes #(\d+) = \{([^\n]*)\}", text, re.M))
+    nxt = max(groups) + 1 if groups else 0
+    remap = {}
+    lines = text.split("\n")
+    for k, line in enumerate(lines):
+        m = re.match(r"define internal [^\n]*?@\"?([\w.$]+)\"?\(", line)
+        if not m or m.group(1) not in new:
+            continue
+        g = re.search(r"\) (?:[a-z_]+ )*#(\d+)", line)
+        if not g:
+            continue
+        old = int(g.group(1))
+        if old not in remap:
+            body = groups.get(old, "")
+            body = re.sub(r"\b(noinline|optnone)\b", "", body)
+            remap[old] = (nxt, " alwaysinline " + body)
+            nxt += 1
+        lines[k] = line[:g.start(1)] + str(remap[old][0]) + line[g.end(1):]
+    for old, (n, body) in remap.items():
+        lines.append("attributes #%d = {%s}" % (n, body))
+    with open(path + ".in", "w") as fh:
+        fh.write("\n".join(lines))
+    r = subprocess.run(["opt-14", "-passes=always-inline", "-S", path + ".in", "-o", path + ".out"],
+                       stdout=subprocess.PIPE, stderr=subprocess.PIPE, text=True)
+    os.unlink(path + ".in")
+    if r.returncode != 0:
+        raise AnalysisBroken("inlining new helper functions %s failed:\n%s" % (new, r.stderr[-2000:]))
+    os.rename(path + ".out", path)
+
+
+def compile_unit(src, args, tag, raw=False):
     """Compile one C file to mem2reg'd IR text; returns (path, hash)."""
     h = _deps_hash(src, args)
     cdir = os.path.join(WORK, "ir")
     os.makedirs(cdir, exist_ok=True)
-    out = os.path.join(cdir, "%s-%s-%s.ll" % (tag, os.path.basename(src).replace(".c", ""), h))
+    out = os.path.join(cdir, "%s%s-%s-%s.ll" % ("raw" if raw else "", tag, os.path.basename(src).replace(".c", ""), h))
     if not os.path.isfile(out):
         tmp = out + ".tmp%d" % os.getpid()
         r = subprocess.run(["clang"] + args + IR_FLAGS + [src, "-o", tmp + ".0"],
@@ -163,9 +222,11 @@ def compile_unit(src, args, tag):
         os.unlink(tmp + ".0")
         if r.returncode != 0:
             raise AnalysisBroken("opt mem2reg failed on %s:\n%s" % (src, r.stderr[-2000:]))
+        if not raw:
+            _inline_new_helpers(tmp, os.path.relpath(src, REPO) if src.startswith(REPO) else None)
         os.rename(tmp, out)
         # prune older IR of the same unit/tag
-        prefix = "%s-%s-" % (tag, os.path.basename(src).replace(".c", ""))
+        prefix = "%s%s-%s-" % ("raw" if raw else "", tag, os.path.basename(src).replace(".c", ""))
         for f in os.listdir(cdir):
             if f.startswith(prefix) and f.endswith(".ll") and os.path.join(cdir, f) != out:
                 try:
@@ -175,7 +236,7 @@ def compile_unit(src, args, tag):
     return out, h
 
 
-def build_ir(variant="default", extra_units=()):
+def build_ir(variant="default", extra_units=(), raw=False):
     """Compile all library units (+ extra witness units) of a variant.
     Returns list of dicts {file, ir, hash}."""
     cfgdir, units = configure(variant)
@@ -190,7 +251,7 @@ def build_ir(variant="default", extra_units=()):
         jobs.append(("witness/" + os.path.basename(w), w, base_args))
     res = []
     with ThreadPoolExecutor(max_workers=16) as ex:
-        futs = [(name, ex.submit(compile_unit, src, args, variant)) for name, src, args in jobs]
+        futs = [(name, ex.submit(compile_unit, src, args, variant, raw)) for name, src, args in jobs]
         for name, f in futs:
             path, h = f.result()
             res.append({"file": name, "ir": path, "hash": h})
